@@ -78,7 +78,7 @@ def discharge(engine, chk, contracts_by_target=None, opts=None, expect_fail=None
                     code = None
                     o.detail["replay_error"] = repr(e)
                 if code:
-                    attach(o, code, raises_is_violation=ob.meta.get("raises_is_violation", True))
+                    attach(o, code, raises_is_violation=ob.meta.get("raises_is_violation", True), bucket="modeS")
             if "replay-required" in name and not (o.replay and o.replay.get("confirmed")):
                 # the clause is stricter than the property's sentence (it forbids more than the property does); a failed proof
                 # counts as a violation only with a concrete input on the real code that violates the property itself
@@ -100,7 +100,7 @@ def discharge(engine, chk, contracts_by_target=None, opts=None, expect_fail=None
                 except Exception as e:
                     code = None
                 if code:
-                    attach(o, code, raises_is_violation=True)
+                    attach(o, code, raises_is_violation=True, bucket="modeS-unknown")
                     if o.replay and o.replay.get("confirmed"):
                         o.status = FAILED
                         o.backend = "replay-after-solver-unknown"
